@@ -143,6 +143,11 @@ func updateListAndMap(list []types.WorkReportHash, newItems []types.WorkReportHa
 			itemMap[item] = true
 		}
 	}
+	// psi_g, psi_b and psi_w are sets: keep them in canonical (ascending) order, as psi_o is,
+	// so that the serialized state does not depend on the order in which reports were judged
+	sort.Slice(result, func(i, j int) bool {
+		return bytes.Compare(result[i][:], result[j][:]) < 0
+	})
 	return result
 }
 
